@@ -207,8 +207,14 @@ EvEnd ==
      (* C18 *)
      /\ Check("C18", "ExitsByItself", run.sigScan => e.exit # XSignaled, e.exit)
      /\ Check("C18", "InterruptedNeverPasses", (run.sigScan /\ e.exit = 0) => ~AnyMissing(post), e.exit)
-     /\ Check("C18", "LockCoversAfterStop", (run.sigScan /\ run.mode = "edit" /\ run.cache) => LockDominates(e.lock, w1),
-              [lock |-> e.lock, written |-> w1, exit |-> e.exit])
+     (* "the lock file covers every ID written": the IDs this run wrote (the history as a whole is C02's subject) *)
+     /\ Check("C18", "LockCoversAfterStop", (run.sigScan /\ run.mode = "edit" /\ run.cache) => LockDominates(e.lock, new),
+              [lock |-> e.lock, written |-> new, exit |-> e.exit])
+     (* a lock value that a stopped run wrote (it differs from the one the run found) covers every ID in the sources, not only
+        the IDs of the part of the tree the run got to see *)
+     /\ Check("C18", "WrittenLockCoversTree", (run.sigScan /\ run.mode = "edit" /\ run.cache /\ LockOK(pre, run.preLock, run.cache)
+                                               /\ e.lock # run.preLock /\ e.lock >= 1) => \A r \in RefsOf(post) : e.lock > r,
+              [lock |-> e.lock, prelock |-> run.preLock])
      /\ Check("C18", "AtomicAfterStop", (run.sigScan \/ run.sigEarly) => \A f \in DOMAIN e.cls : e.cls[f] \in {"orig", "new", "gone"}, e.cls)
      /\ Check("C18", "EarlySignalHarmless", (run.sigEarly /\ e.exit = XSignaled) => ~run.mutated, e.exit)
   /\ UNCHANGED maxid
